@@ -322,6 +322,47 @@ def constraint_rank_sequences():
     return res
 
 
+def rank_value_independence():
+    """Ellipsis repetition counts (ranks) are determined from ranks alone: tensor ranks, the number of entries of tuple-valued sizes, and the structure of the
+    expressions. Hence WHETHER a call fails with RankError cannot depend on the numeric values of scalar size keywords or on coincidences between those values and
+    tensor dimensions (equal numbers, equal printed text). Relation checked: for a fixed description and fixed tensor ranks, the predicate 'raises RankError' is the
+    same for every assignment of scalar values (all equal / all distinct / equal to a tensor dimension), for solve_axes, solve_shapes, matches and einx.id."""
+    import einx
+    out = []
+    scenarios = [
+        ("(a c)..., b...", [(4, 6), None], ["a", "b"]),
+        ("(a b)... c", [(4, 6, 2)], ["a", "c"]),
+        ("a..., b...", [(2, 2), None], ["b"]),
+        ("a... b, c...", [(2, 3, 2), (2,)], ["b"]),
+        ("(s ds)... g", [(4, 6, 2)], ["ds", "g"]),
+        ("a... (b c)", [(2, 2, 6)], ["c"]),
+        ("(a b)..., (c d)...", [(4, 6), (4, 6)], ["a", "c"]),
+        ("a b..., b...", [(2, 3, 4), None], ["a"]),
+    ]
+    for desc, shapes, names in scenarios:
+        tensors = [None if s is None else np.zeros(s) for s in shapes]
+        dims = sorted({d for s in shapes if s is not None for d in s})
+        assignments = [("all equal 2", {n: 2 for n in names}), ("all distinct", {n: 2 + i for i, n in enumerate(names)}), ("all distinct, reversed", {n: 2 + len(names) - i for i, n in enumerate(names)}),
+                       ("equal to a tensor dimension", {n: dims[i % len(dims)] for i, n in enumerate(names)}), ("all equal 3", {n: 3 for n in names})]
+        for entry in ("solve_axes", "solve_shapes", "matches"):
+            got = {}
+            for label, kw in assignments:
+                o = harness.outcome(lambda: getattr(einx, entry)(desc, *tensors, **kw), 15)
+                if o[0] == "timeout":
+                    got[label] = "timeout"
+                elif entry == "matches":
+                    got[label] = "n/a"
+                else:
+                    got[label] = "RankError" if (o[0] == "exc" and o[1] == "einx.errors.RankError") else "no RankError"
+            vals = {v for v in got.values() if v not in ("timeout", "n/a")}
+            d = {"description": desc, "shapes": [None if s is None else list(s) for s in shapes], "kwargs": {n: "varied" for n in names}, "entry": entry}
+            if len(vals) > 1:
+                out.append(("rank-depends-on-values", d, f"{entry}({desc!r}) with scalar sizes {names}: RankError depends on the VALUES of the sizes: {got}"))
+            else:
+                out.append(("ok", d, None))
+    return out
+
+
 def rule_exact():
     """C02.S.exact: no 32-bit casts of sizes in the solving code; lengths of flattened / concatenated axes are computed with Python ints"""
     sites, failing = [], []
@@ -366,7 +407,7 @@ def run(tier, seed):
     n = 24 if tier == "quick" else 1500
     res = [x for r in harness.pmap(_work, [(seed, i) for i in range(n)]) for x in r]
     res += large_magnitudes()
-    res += constraint_rank_sequences()
+    res += constraint_rank_sequences() + rank_value_independence()
     cnt = {}
     for r in res:
         cnt[r[0]] = cnt.get(r[0], 0) + 1
@@ -389,6 +430,6 @@ def run(tier, seed):
                     "(unique / none / ambiguous) and the one-axis-at-a-time propagation criterion; large-magnitude stratum up to 2**180", f"{n} chunks x 40 systems x 3 entry points + 200 large-magnitude calls",
                     len(res), len({(r[1]['description'], str(r[1]['shapes']), str(r[1]['kwargs'])) for r in res}), failures=fails, samples=[{k: v for k, v in r[1].items() if k != 'replay'} for r in res[:2]], note=str(cnt))
     chk.trusted += ["z3 as the constraint oracle (systems it answers `unknown` are counted and skipped)"]
-    chk.assumptions += ["completeness beyond the propagation criterion is not decided", "sympy itself is not verified, only its answers", "ellipsis-rank solving is exercised by C07/C01 corpora, not by this oracle"]
+    chk.assumptions += ["completeness beyond the propagation criterion is not decided", "sympy itself is not verified, only its answers", "ellipsis-rank solving: only the relation `RankError does not depend on the values of scalar sizes` (8 descriptions x 5 value assignments) and the scalar/tuple constraint-rank sequences are checked here; the rest through the C07/C01 corpora"]
     chk.explanation = "certifying postcondition on the solve entry points: returns sigma => sigma satisfies E and is the only positive solution on the reported quantities; raises => E has no unique solution; propagation-determined => returns. Decided per call by z3 on a bounded corpus; exactness by a syntactic rule (no fixed-width size arithmetic) plus a large-magnitude stratum"
     return chk
